@@ -360,7 +360,9 @@ def xright(from_str, num_chars=1):
 
 
 FUNCTIONS['RIGHT'] = wrap_ufunc(xright, **_kw0)
-FUNCTIONS['TRIM'] = wrap_ufunc(str.strip, **_kw1)
+FUNCTIONS['TRIM'] = wrap_ufunc(
+    lambda text: ' '.join(w for w in text.split(' ') if w), **_kw1
+)
 FUNCTIONS['UPPER'] = wrap_ufunc(str.upper, **_kw1)
 
 
